@@ -297,6 +297,10 @@ class C13(CheckBase):
                 add("C13/max", "%s: MaxFileId()=%d below live id %d" % (where, o["max"], max(live)))
             # clause 6: name look-up
             for name, rec in o["names"].items():
+                # (the count by name is the companion of the look-up by name: both walk the same list)
+                nlive = sum(1 for e_ in m.lst if m.inst[e_["h"]]["ent"].lower() == name.lower())
+                if "kc" in rec and rec["kc"] != nlive:
+                    add("C13/name-count", "%s: EntityKeywordCount(%s) = %s, %d live instances carry that name" % (where, name, rec["kc"], nlive))
                 frm = rec["from"]
                 for s in range(len(frm)):
                     exp = -1
